@@ -2,7 +2,7 @@
 ignore_include, X12 include search shape, P2 io error mapping (E1 over sv-parser-pp and sv-parser)."""
 from vlib import sx
 from vlib.report import RuleResult
-from rules.x_pp import model, sq, arm_of_line, stmts_with_scope, resolve_let
+from rules.x_pp import model, sq, arm_of_line, stmts_with_scope, resolve_let, table_var
 
 PP = 'sv-parser-pp'
 API = 'sv-parser'
@@ -89,8 +89,21 @@ def transfer(arg, param):
 def x9(ctx, tab, sites, scc=()):
     r = RuleResult('X9', 'flags, paths, tables and depth counters are forwarded to the parameter of the same name')
     n = 0
+    inlined = {}
     for caller, callee, call in sites:
         crate, fl, fn, names = tab[caller]
+        # locals bound once to a literal stand for that literal
+        if caller not in inlined:
+            lits = {}
+            cnt = {}
+            for nn in sx.walk(fn['body']):
+                if nn.get('k') == 'let' and 'pat' in nn and nn['pat'].get('k') == 'ident':
+                    cnt[nn['pat']['n']] = cnt.get(nn['pat']['n'], 0) + 1
+                    if 'init' in nn and nn['init'].get('k') == 'lit':
+                        lits[nn['pat']['n']] = nn['init']
+            inlined[caller] = {k: v for k, v in lits.items() if cnt.get(k) == 1 and k not in names}
+        call = dict(call)
+        call['args'] = [inlined[caller].get(a_['p'], a_) if sx.is_path(a_) else a_ for a_ in call['args']]
         pnames = tab[callee][3]
         for i, (arg, pn) in enumerate(zip(call['args'], pnames)):
             if pn not in TRACKED:
@@ -142,6 +155,8 @@ def x9(ctx, tab, sites, scc=()):
                     continue
                 if pn in ('text', 'defines'):
                     continue
+                if pn == 's' and what not in names:
+                    continue   # a local holding the text to preprocess (file contents, expansion): W6 / X13 decide which
                 r.fail(key + ':other-var', where, '%s passes `%s` for `%s` of %s' % (caller, what, pn, callee))
                 continue
             r.fail(key + ':expr', where, '%s passes the expression `%s` for `%s` of %s (unmodelled: fail closed)' % (caller, what, pn, callee))
@@ -323,9 +338,10 @@ def x10_x12_p2(ctx, tab, sites, pp):
             rest = stmts[i + 1:]
             rest_txt = [sq(x) for x in rest]
             r10.inst('adopt:%s' % callee, {'call': callee, 'binds': ids, 'then': rest_txt[:3]})
+            tabv = table_var(pp)
             if len(ids) == 2:
                 txt_v, def_v = ids
-                if 'defines=%s;' % def_v not in rest_txt:
+                if '%s=%s;' % (tabv, def_v) not in rest_txt:
                     r10.fail('%s:%s:defines-not-adopted' % (PP, callee), pp.where(st.get('l')),
                              'the define table returned by %s (`%s`) does not replace the live table (`defines = %s`): definitions — or, if it is merely merged, undefinitions — made in the included file do not remain in force' % (callee, def_v, def_v))
                 if '%s.merge(%s);' % (pp.out_var, txt_v) not in rest_txt:
@@ -358,7 +374,7 @@ def x10_x12_p2(ctx, tab, sites, pp):
                 if src.get('k') != 'try':
                     r10.fail('%s:%s:resolver-error-dropped' % (PP, arm.key if arm else '-'), pp.where(n.get('l')), 'errors of the macro resolver must be propagated with `?`')
                 if len(ids) == 3:
-                    if 'defines=%s;' % ids[2] not in body:
+                    if '%s=%s;' % (table_var(pp), ids[2]) not in body:
                         r10.fail('%s:%s:expansion-defines-not-adopted' % (PP, arm.key if arm else '-'), pp.where(n.get('l')),
                                  'the define table returned by the expansion (`%s`) is not adopted' % ids[2])
     r10.floor('nested_run_sites', r10.instances, 3)
